@@ -106,10 +106,16 @@ pub fn active() -> bool {
 }
 
 fn with_suspended<T>(f: impl FnOnce() -> T) -> T {
+    // (an interposer may panic, e.g. when a call budget is exceeded: recording must resume all the same)
+    struct Resume;
+    impl Drop for Resume {
+        fn drop(&mut self) {
+            let _ = SUSPENDED.try_with(|s| *s.borrow_mut() = false);
+        }
+    }
     SUSPENDED.with(|s| *s.borrow_mut() = true);
-    let r = f();
-    SUSPENDED.with(|s| *s.borrow_mut() = false);
-    r
+    let _resume = Resume;
+    f()
 }
 
 /// Ask the interposer what to do with `call` (index = position in the log).
